@@ -80,7 +80,13 @@ def gen_leaf(r, kind=None, big=False):
         return (k, r.bytes(16) if r.chance(1, 2) else r.choice(special))
     if k == "ae":
         n = r.choice([1, 2, 3, 12, 14, 15]) if r.chance(1, 2) else r.range(1, 15)
-        return (k, bytes(r.range(0x30, 0x39) for _ in range(n)))
+        digits = bytes(r.range(0x30, 0x39) for _ in range(n))
+        c = r.below(8)
+        if c == 0:
+            return (k, (b"+" + digits)[:15])          # international notation
+        if c == 1:
+            return (k, r.choice([b"+", b"00", b"1-800", b" 12", b"12 ", b"+-", b"#31#", b"*"]))
+        return (k, digits)
     if k in ("id", "utf"):
         return (k, gen_utf8(r, gen_len(r, big)))
     if k in ("uri", "oct"):
@@ -160,12 +166,14 @@ def synthetic_dict(r, dictid, via_xml=False):
             dict(code=3101, vendor=9, name=b"Twin-Renamed", ty="u64", m=True),
             dict(code=3200, vendor=None, name=b"Same-Name", ty="i32", m=False), dict(code=3200, vendor=None, name=b"Same-Name", ty="oct", m=True),
             # one name carried by two live definitions (which of them a by-name lookup returns is left open by the properties)
-            dict(code=3301, vendor=10415, name=b"Shared-Name", ty="u32", m=True), dict(code=3300, vendor=None, name=b"Shared-Name", ty="u32", m=False)]
+            dict(code=3301, vendor=10415, name=b"Shared-Name", ty="u32", m=True), dict(code=3300, vendor=None, name=b"Shared-Name", ty="utf", m=False),
+            # a key whose type was known and is re-declared with a type name the library does not recognise: nothing may decode under it
+            dict(code=3400, vendor=None, name=b"Was-Known", ty="u32", m=False), dict(code=3400, vendor=None, name=b"Was-Known", ty="unk", m=False)]
     defs = defs + seq
     g.defs = defs
     if via_xml:
         apps = [dict(name=b"GenApp", id=4, cmds=[(b"Credit-Control", 272)],
-                     avps=[dict(code=d["code"], vendor=d["vendor"], name=d["name"], tyname=TY_XML_NAME[d["ty"]].encode(),
+                     avps=[dict(code=d["code"], vendor=d["vendor"], name=d["name"], tyname=TY_XML_NAME.get(d["ty"], "IPFilterRule").encode(),
                                 must=(b"M" if d["m"] else None)) for d in defs])]
         xml = gen_xml(apps)
         g.ops = [load_toks(xml, apps)]
